@@ -108,6 +108,32 @@ Lemmas used when facts are combined (`_lookup`, `_cv`):
           admitted inputs.  seek(-len(<look-ahead of k <= H bytes>), SEEK_CUR) moves the cursor by -k (C1);
       C7  premise: decoding a complete record raises nothing - edges into exception handlers and implicit exception
           edges out of the function are not followed; an explicit `raise` reached under the scenario is undecided.
+  L8  (evaluated terms, `_St.evals` / `_pretty_evals`) the path executor records, per path, the term of every expression
+      the path *evaluates* (assigned values, branch / assert tests, arguments of entered helpers, effect calls, loop
+      iterables), not only of what it stores.  Inside such a term an application of a pretty-function table entry is
+      evaluated only under the conditional contexts it sits in (`a if c else b`, short-circuit and/or, comprehension
+      filters - their tests are added to the facts of the path as guards; lambda bodies are not evaluated).  The pretty
+      functions are partial (they assume the shape of a well-formed value: ipaddress / hex / partition / list parsers),
+      the raw and parsed views are total over the quantifier (any type 0-3, any length, any value bytes): an application
+      evaluated under facts that do not establish `pretty` makes every view with pretty off depend on that function
+      returning normally.  Facts only grow along a path, so judging with the final facts of the path is judging with
+      a superset of the facts at the point of evaluation (a later split on `pretty` yields the pretty-off path).
+  U1-U5 (scenario "a completely filled 128-byte User-Agent field", `_FilledField`; the literals 9 / 0x80 / NUL are those of
+      the property text, they are compared with terms of the code and never fed to /repo code):
+      U1  the record has index SETTING_USERAGENT and length N = 0x80; V = <setting>.value has exactly N bytes (the counted
+          array of the C definition), V[N-1] != 0 ("completely filled": no room was left for the NUL terminator), the
+          other N-1 bytes are arbitrary (quantifier: any value bytes).  The property demands that such a field
+          "continues to its NUL";
+      U2  x.rstrip(<only NUL bytes>) is x when the last byte of x is not NUL (only trailing bytes of the set are removed);
+          slices x[a:] / x[-k:] keep the last byte, x[:b] with b >= len(x) and x[:] are x;
+      U3  V.strip / V.lstrip(<only NUL bytes>) has length N - k for k leading NULs; every k in 0 .. N-1 occurs for some
+          admitted V, so its length takes every value of [1, N];
+      U4  a byte of V before the last one takes every value of [0, 255], the last one every value of [1, 255]; V may or may
+          not hold a NUL before its last byte: `<NULs> in V` has both outcomes, V.find(NUL) takes every value of
+          [-1, N-2], V.count(NUL) every value of [0, N-1];
+      U5  a comparison of such an interval (every value of which occurs) with a constant is True / False when all / none
+          of its values satisfy it and has *both* outcomes for admitted fields otherwise (interval comparison, no
+          enumeration); and/or/not combine decided operands, at most one undecided-both operand is carried through.
 Summaries relied on:
   S1  (integer conversion, `_int_conv`) utils.unpack(data, size, byteorder, signed) is int.from_bytes(data[:size],
       byteorder, signed=signed); partials of it contribute their bound keywords (read from the resolver), defaults
@@ -122,7 +148,10 @@ R2  3 (per-path key/value terms of the per-setting loop body, analysed once), 2 
     size/byteorder/signed; parameter defaults); L1-L3, S1.  "The stored key / value is computed from the record of
     the same iteration": 3 (def-use on the path terms, L7), 5 (members of SettingsType) - a key or value term that
     reads a plainly assigned loop local before its assignment in the iteration is a violation of the scenario the
-    path belongs to.
+    path belongs to.  "No pretty function evaluated unless pretty is on": 3 (the terms every path of settings_map and of
+    its per-setting loops evaluates, L8), 2 + 5 (the boolean flag `pretty`; guards of conditional sub-expressions are
+    split into facts; a path selected by another atom about `pretty` is undecided), 1 (`_pretty_app`: a call whose
+    callee is an entry of a module-level dict table).
 R3  3 (per-path return value / stores of each cached view, helpers entered with bound arguments), 2 (the emptiness
     fact `slot is None` on the filling path, `slot` filled on the returning path; L2), 1 (bind_args of the
     settings_map call), 6 (its constant arguments compared with the reference table VIEWS).  Positional pairing:
@@ -160,7 +189,12 @@ R6  2 (facts of the branch edges that dominate the rename / extension site - all
     distance: 4 (upper bound, in the length domain of L5, of the bytes all extension sites can append to the value per
     record; a finite bound is a violation - the NUL may lie farther away -, inf discharges, a term outside the
     transfer rules is undecided), 3 (`inline` of the appended term, accumulator definitions), 6 (the read sizes and
-    range bounds are constants of the code; nothing is iterated or evaluated on data).
+    range bounds are constants of the code; nothing is iterated or evaluated on data).  "Entered for every completely
+    filled field": 2 (the branch edges that dominate the continuation - its outermost loop, or the extension statement -
+    and are evaluated after the struct parse of the same iteration), 3 (`inline` of the tests), 4 (shape / length /
+    interval domain of U1-U5 for the value bytes: a test that is decided against the scenario or has both outcomes for
+    admitted fields is a violation, a test outside the transfer rules - e.g. about the record type or the stream - is
+    undecided), 5 + 6 (enum member SETTING_USERAGENT, 0x80, the literals the code compares with).
 R7  1 (every string subscript / `.get("...")` key and enum attribute in the package that looks like SETTING_*; the
     `re` pattern is applied to identifiers and string literals taken from the syntax tree to select them, not to
     judge a /repo regex), 6 (membership in the enum tables of the C definitions).
@@ -417,6 +451,7 @@ class _St:
         self.env, self.heap, self.facts = {}, {}, {}
         self.stores = []  # ("attr", dotted, term) | ("item", base term, key term, value term)
         self.effects = []  # call terms evaluated for effect
+        self.evals = []  # terms of every expression the path evaluates (assigned values, tests, arguments, iterables)
         self.ret = None
         self.done = None  # None | "return" | "raise" | "break" | "continue"
 
@@ -425,6 +460,7 @@ class _St:
         o.env, o.heap = dict(self.env), dict(self.heap)
         o.facts = dict(self.facts if facts is None else facts)
         o.stores, o.effects = list(self.stores), list(self.effects)
+        o.evals = list(self.evals)
         o.ret, o.done = self.ret, self.done
         return o
 
@@ -549,6 +585,7 @@ class _Exec:
         enters extracted helpers)."""
         if isinstance(e, ast.IfExp):
             t = self.term(e.test, st)
+            st.evals.append(t)
             out = []
             for want, sub in ((True, e.body), (False, e.orelse)):
                 for g in _split(self.ctx, t, st.facts, want):
@@ -558,7 +595,9 @@ class _Exec:
             h = self.helper_of(e, st)
             if h is not None:
                 return self.call(h, e, st)
-        return [(st, self.tag(self.term(e, st)))]
+        t = self.tag(self.term(e, st))
+        st.evals.append(t)
+        return [(st, t)]
 
     def call(self, h, call, st):
         if self.depth >= 3:
@@ -566,6 +605,7 @@ class _Exec:
         ct = self.term(call, st)
         if any(isinstance(a, ast.Starred) for a in ct.args) or any(k.arg is None for k in ct.keywords):
             raise _Unmodelled(f"call of {h.qualname} with arguments that cannot be bound")
+        st.evals.extend(list(ct.args) + [k.value for k in ct.keywords])
         a = h.node.args
         pos = [x.arg for x in a.posonlyargs + a.args]
         if h.cls:
@@ -656,6 +696,7 @@ class _Exec:
 
     def branch(self, test, st, body, orelse):
         t = self.term(test, st)
+        st.evals.append(t)
         out = []
         for want, blk in ((True, body), (False, orelse)):
             for g in _split(self.ctx, t, st.facts, want):
@@ -686,6 +727,7 @@ class _Exec:
                 if h is not None:
                     return [s2 for s2, _t in self.call(h, v, st)]
                 st.effects.append(self.term(v, st))
+                st.evals.append(st.effects[-1])
                 return [st]
             raise _Unmodelled(f"expression statement {src(v)[:40]}")
         if isinstance(s, (ast.Assign, ast.AnnAssign)):
@@ -705,12 +747,14 @@ class _Exec:
                     n.ctx = ast.Load()
             cur = self.term(cur, st)
             t = self.tag(ast.BinOp(left=cur, op=s.op, right=self.term(s.value, st)))
+            st.evals.append(t.right)
             self.bind(s.target, t, st)
             return [st]
         if isinstance(s, ast.If):
             return self.branch(s.test, st, s.body, s.orelse)
         if isinstance(s, ast.Assert):
             t = self.term(s.test, st)
+            st.evals.append(t)
             return [st.fork(g) for g in _split(self.ctx, t, st.facts, True)]
         if isinstance(s, ast.Return):
             if s.value is None:
@@ -737,6 +781,8 @@ class _Exec:
                 st.env.pop(n, None)
             for d in attrs:
                 st.heap.pop(d, None)
+            if isinstance(s, ast.For):
+                st.evals.append(self.term(s.iter, st))
             self.loops.append((s, st.fork()))
             return [st]
         raise _Unmodelled(f"{type(s).__name__} statement")
@@ -848,19 +894,25 @@ def run(ctx):
         "index lies at the cursor' (every exception-free path must reach the yield before leaving the loop; end-of-data tests on the "
         "stream position are compared, as intervals, with the size of the fixed part of struct Setting from the C definitions), "
         "def-use of the per-setting loop of settings_map (a key/value term must not read a loop local before its assignment in the "
-        "same iteration: it would carry the previous record's value), index-36 and "
+        "same iteration: it would carry the previous record's value), the terms each path of settings_map evaluates (a pretty-function "
+        "table entry may only be applied on paths on which `pretty` holds - the raw / parsed views must not depend on a pretty "
+        "function returning normally), index-36 and "
         "User-Agent guards from dominating branch facts (enum members and literals also when named by a single-definition "
         "module-level constant of beacon.py), a length-domain upper bound on the bytes the User-Agent continuation can "
-        "append per record (must not be finite), cardinality classes (per record / per distinct key) of the arguments of every "
+        "append per record (must not be finite), the tests that guard the continuation evaluated in a shape/length domain under the "
+        "scenario 'index USERAGENT, length 0x80, last value byte not NUL, other bytes arbitrary' (all must hold), cardinality classes (per record / per distinct key) of the arguments of every "
         "positional pairing (zip, multi-iterable map) a cached view is assembled with, and the SETTING_* key vocabulary used "
         "across the package."
     )
     rep.not_decided = ["the numeric values themselves", "alias-name choice for duplicated enum values (16/17/48)", "trailing bytes: only that a zero index ends the iteration whatever follows it (R5), not where the stream is left",
                        "records whose decoding raises an exception (the complete-record scenario follows exception-free paths only)",
                        "views that are not computed by settings_map and contain no record/key pairing (undecided)",
-                       "that the User-Agent continuation stops exactly at the NUL (only that no constant bounds it)",
+                       "that the User-Agent continuation stops exactly at the NUL (only that no constant bounds it and that it is entered for every completely filled field)",
+                       "pretty functions evaluated outside settings_map (e.g. while the settings tuple is built) or by helpers the path executor cannot enter",
                        "index-36 / User-Agent guards that compare the index, type or length with a value that is not a constant of beacon.py (undecided)"]
     rep.trusted_base = ["CPython ast", "networkx dominators", "C-definition parser (csverif.cdefs)", "dissect.cstruct parses fields in declaration order",
+                        "dissect.cstruct: a parsed Setting carries exactly `length` value bytes (counted array) - a 0x80 record has a 128-byte value",
+                        "bytes.rstrip/strip/lstrip/find/count/endswith/in have their documented CPython semantics (lemmas U2-U4)",
                         "a module-level name of beacon.py that is bound once and never rebound in the module is not rebound from outside the module",
                         "dissect.cstruct: the truth value of a structure instance depends on all of its fields (or is constant), never on the first field alone",
                         "binary stream protocol: seek() returns the new absolute position, tell() the current one, read(k) advances by the bytes returned"]
@@ -954,6 +1006,46 @@ def _pretty_app(ctx, v):
         if isinstance(fn, ast.Subscript) and table(fn.value):
             return v.args[0], fn.slice
     return None
+
+
+def _pretty_evals(ctx, t):
+    """[(application node, guards)] for every application of a pretty-function table entry (`_pretty_app`) that
+    evaluating term t can evaluate; guards = [(test, outcome)] of the conditional contexts of t the application sits in
+    (`a if c else b`, short-circuit and/or, comprehension filters).  Bodies of lambdas are not evaluated with t."""
+    out = []
+
+    def walk(n, guards):
+        if isinstance(n, ast.Lambda):
+            return
+        if isinstance(n, ast.IfExp):
+            walk(n.test, guards)
+            walk(n.body, guards + [(n.test, True)])
+            walk(n.orelse, guards + [(n.test, False)])
+            return
+        if isinstance(n, ast.BoolOp):
+            g = list(guards)
+            for v in n.values:
+                walk(v, g)
+                g = g + [(v, isinstance(n.op, ast.And))]
+            return
+        if isinstance(n, (ast.ListComp, ast.SetComp, ast.GeneratorExp, ast.DictComp)):
+            g = list(guards)
+            for c in n.generators:
+                walk(c.iter, g)
+                for i in c.ifs:
+                    walk(i, g)
+                    g = g + [(i, True)]
+            for e in ([n.key, n.value] if isinstance(n, ast.DictComp) else [n.elt]):
+                walk(e, g)
+            return
+        if isinstance(n, ast.Call) and _pretty_app(ctx, n) is not None:
+            out.append((n, guards))
+        for c in ast.iter_child_nodes(n):
+            walk(c, guards)
+
+    if t is not None:
+        walk(t, [])
+    return out
 
 
 def _entangled(facts, vocab, words):
@@ -1102,11 +1194,12 @@ def _settings_map(ctx, f):
         order.add(False if changed else None, f"the returned mapping is built as `{src(acc)}`" + (" (reordered)" if changed else " - not a fresh empty ordered mapping filled per setting"))
     # ---------------------------------------------------------------- the per-setting loop
     tok = getattr(acc, "_tok", None) if acc is not None else None
-    main = []
+    main, allpaths = [], list(outs)
     for loop, entry in ex.loops:
         if not isinstance(loop, ast.For):
             continue
         paths = ex.run(loop.body, entry.fork())
+        allpaths.extend(paths)
         if any(s[0] == "item" and getattr(s[1], "_tok", -1) == tok for p in paths for s in p.stores):
             main.append((loop, entry, paths))
     if acc is not None and fresh(acc) and len(main) != 1:
@@ -1229,6 +1322,37 @@ def _settings_map(ctx, f):
         pretty_only.emit(ctx, "R2", "AGREE", f, "pretty function only in pretty views", "pretty functions are looked up by the setting's index and applied only where `pretty` holds", loop)
     else:
         ctx.undecided("R2", "AGREE", f, "pretty function only in pretty views", "no application of a pretty-function table entry found", loop)
+    # ---------------------------------------------------------------- R2: no pretty function is *evaluated* for a raw / parsed view
+    # (a pretty function is partial - it assumes the shape of a well-formed value -, the raw and parsed views are total:
+    # "any type 0-3, any length, any value bytes"; so a view with `pretty` off must not depend on one terminating normally)
+    lazy, seen = _Agg(), set()
+    for p in allpaths:
+        if p.done == "raise":
+            continue
+        for t in p.evals:
+            for app, guards in _pretty_evals(ctx, t):
+                cur = [p.facts]
+                for g, w in guards:
+                    cur = [h for fc in cur for h in _split(ctx, g, fc, w)]
+                for fc in cur:
+                    ent = _entangled(fc, {("t", "pretty")}, ("pretty",))
+                    on = _lookup(fc, ("t", "pretty"))
+                    key = (src(app), ent, on)
+                    if key in seen:
+                        continue
+                    seen.add(key)
+                    if ent is not None:
+                        lazy.add(None, f"`{src(app)[:70]}` is evaluated on a path selected by `{ent}`, which the rule cannot relate to the `pretty` flag")
+                    elif on is True:
+                        lazy.add(True)
+                    else:
+                        lazy.add(False, f"`{src(app)[:90]}` is evaluated on a path on which `pretty` is " + ("off" if on is False else "not tested")
+                                 + ": the raw / parsed views run the pretty function of every setting that has one, so a record whose value "
+                                   "does not have the shape that function expects (another type, length or content - all admitted by the "
+                                   "property) makes them raise instead of returning the value as serialized")
+    lazy.emit(ctx, "R2", "DOM", f, "no pretty function evaluated unless pretty is on",
+              "every evaluation of a pretty-function table entry lies on paths on which `pretty` holds", loop,
+              "no application of a pretty-function table entry found")
     # ---------------------------------------------------------------- R2: key per index_type
     N, C = _expr("index_type == 'name'"), _expr("index_type == 'const'")
     kscen = [("name", [(N, True)], f"{sv}.index.name"), ("const", [(N, False), (C, True)], f"{sv}.index.value"), ("enum", [(N, False), (C, False)], f"{sv}.index")]
@@ -2665,6 +2789,44 @@ def r5_r6(ctx):
             agg.add(_and3(g1, g2), f"extension of {sname}.value guarded by index==USERAGENT={_tv(g1)}, length==0x80={_tv(g2)}")
         agg.emit(ctx, "R6", "DOM", f, text, f"{sname}.value is extended only under index==USERAGENT and length==0x80 ({len(ext)} site(s))", loop)
         ctx.rep.count("iter_settings_value_extensions", len(ext), floor=1)
+    # the continuation is entered for every completely filled field (scenario U1), whatever its other bytes are
+    text = "User-Agent continuation entered for every completely filled 128-byte field"
+    if ext:
+        ff = _FilledField(ctx, sname, bs.get("SETTING_USERAGENT"))
+        regions = {}
+        for s in ext:
+            inner = [a for a in fv.ancestors(s) if isinstance(a, (ast.While, ast.For)) and a is not loop and loop in fv.ancestors(a)]
+            outer = [a for a in inner if not any(b is not a and b in fv.ancestors(a) for b in inner)]
+            entry = outer[0] if outer else s  # the outermost loop of the continuation, else the extension itself
+            regions[id(entry)] = entry
+        agg = _Agg()
+        for entry in regions.values():
+            if not cfg.has(entry) or not cfg.dominates(pn, cfg.node(entry)):
+                agg.add(None, "the continuation is not located behind the struct parse of the same iteration")
+                continue
+            for t, pol in _entry_guards(ctx, f, cfg, fv, entry, pn):
+                ti = inline(f.node, t, stop=stop)
+                v = ff.truth(ti)
+                shown = ("" if pol else "not ") + f"`{src(ti)[:80]}`"
+                if v is None:
+                    agg.add(None, f"the continuation is entered only if {shown}: the rule cannot evaluate this test for a 128-byte User-Agent field "
+                                  "whose last byte is not NUL")
+                elif v == _BOTH:
+                    agg.add(False, f"the continuation is entered only if {shown}, which depends on the bytes before the last one of the field: a "
+                                   "completely filled 128-byte User-Agent field (last byte not NUL) that e.g. holds a NUL earlier is cut at 128 "
+                                   "bytes and the rest of the string is parsed as setting records")
+                elif v != pol:
+                    agg.add(False, f"the continuation is entered only if {shown}, which never holds for a 128-byte User-Agent field whose last byte is not NUL")
+                else:
+                    agg.add(True)
+        if len(regions) > 1 and agg.bad:
+            ctx.undecided("R6", "DOM", f, text, f"{len(regions)} continuation sites, one of them not entered for every filled field ({agg.bad[0][:120]}): "
+                          "whether the sites cover each other is not modelled", loop)
+        else:
+            agg.emit(ctx, "R6", "DOM", f, text, "every test between the struct parse and the continuation holds for index==USERAGENT, length==0x80 and a value "
+                     "whose last byte is not NUL, whatever the other 127 bytes are", loop, "no test guards the continuation")
+    elif mentions("SETTING_USERAGENT"):
+        ctx.undecided("R6", "DOM", f, text, f"no extension of {sname}.value found", loop)
     # the continuation reaches a NUL at any distance: no constant bounds the number of bytes appended per record
     text = "User-Agent continuation not bounded by a constant"
     if not ext:
@@ -2692,6 +2854,192 @@ def r5_r6(ctx):
     else:
         ctx.ob("R6", "ABS", f, text, False, f"the continuation appends at most {total} byte(s) per record ({'; '.join(parts)}): a User-Agent whose NUL lies farther away is cut "
                "off and the following records are parsed from the middle of the string", ext[0])
+
+
+# ---- scenario "a completely filled 128-byte User-Agent field" (lemmas U1-U5 of the module docstring)
+_BOTH = "both"
+
+
+def _all_nul(c):
+    return isinstance(c, bytes) and len(c) >= 1 and not any(c)
+
+
+class _FilledField:
+    """Abstract value of a guard of the User-Agent continuation under the scenario U1: the record at hand has index
+    SETTING_USERAGENT and length N = 0x80, V = <setting>.value has exactly N bytes, its last byte is not NUL and its
+    other N - 1 bytes are arbitrary.  Bytes terms are abstracted to (length interval, "last byte is not NUL",
+    "is V itself", "every length of the interval occurs"), integer terms to an interval every value of which occurs for
+    some admitted V; `truth` returns True / False (the same for every admitted V), _BOTH (each outcome occurs for some
+    admitted V - only claimed through U3-U5) or None (not understood)."""
+
+    N = 0x80
+
+    def __init__(self, ctx, sname, ua_index):
+        self.ctx, self.sname, self.ua = ctx, sname, ua_index
+
+    def bytes_(self, e, depth=0):
+        if depth > 8:
+            return None
+        rec = lambda x: self.bytes_(x, depth + 1)  # noqa: E731
+        if dotted(e) == f"{self.sname}.value":
+            return dict(lo=self.N, hi=self.N, nz=True, ident=True, full=True)
+        c = _c(e)
+        if isinstance(c, bytes):
+            return dict(lo=len(c), hi=len(c), nz=bool(c) and c[-1] != 0, ident=False, full=True, const=c)
+        if isinstance(e, ast.Call) and dotted(e.func) in ("bytes", "bytearray", "memoryview") and len(e.args) == 1 and not e.keywords:
+            return rec(e.args[0])
+        if isinstance(e, ast.Call) and isinstance(e.func, ast.Attribute) and not e.keywords and len(e.args) == 1 \
+                and e.func.attr in ("rstrip", "strip", "lstrip") and _all_nul(_c(e.args[0])):
+            x = rec(e.func.value)
+            if x is None or "const" in x or not x["nz"]:
+                return None
+            if e.func.attr == "rstrip":
+                return x  # U2: nothing is stripped behind a last byte that is not NUL
+            if x["ident"]:
+                return dict(lo=1, hi=self.N, nz=True, ident=False, full=True)  # U3: k leading NULs, k = 0 .. N-1, all occur
+            return None
+        if isinstance(e, ast.Subscript) and isinstance(e.slice, ast.Slice) and e.slice.step is None:
+            x = rec(e.value)
+            if x is None or "const" in x or x["lo"] != x["hi"]:
+                return None
+            n, lo, hi = x["lo"], e.slice.lower, e.slice.upper
+            if hi is not None and not (isinstance(_c(hi), int) and _c(hi) >= n):
+                return None
+            if lo is None or _c(lo) == 0:
+                return x
+            a = _c(lo)
+            if not isinstance(a, int) or isinstance(a, bool):
+                return None
+            if a < 0:
+                a += n
+            if 0 < a < n:
+                return dict(lo=n - a, hi=n - a, nz=x["nz"], ident=False, full=True)
+        return None
+
+    def int_(self, e, depth=0):
+        """(lo, hi): the value of e lies in the interval and every value of the interval occurs for some admitted V."""
+        if depth > 8:
+            return None
+        cv = _cv(self.ctx, e)
+        if cv is not None and cv[0] in ("int", "bool"):
+            return int(cv[1]), int(cv[1])
+        d = dotted(e)
+        if d == f"{self.sname}.length":
+            return self.N, self.N
+        if d == f"{self.sname}.index" and isinstance(self.ua, int):
+            return self.ua, self.ua
+        if isinstance(e, ast.Call) and dotted(e.func) == "len" and len(e.args) == 1 and not e.keywords:
+            x = self.bytes_(e.args[0], depth + 1)
+            return (x["lo"], x["hi"]) if x is not None and x["full"] else None
+        if isinstance(e, ast.Subscript) and not isinstance(e.slice, ast.Slice):
+            x, i = self.bytes_(e.value, depth + 1), _c(e.slice)
+            if x is None or "const" in x or x["lo"] != x["hi"] or not isinstance(i, int) or isinstance(i, bool) or not -x["lo"] <= i < x["lo"]:
+                return None
+            if i in (-1, x["lo"] - 1):
+                return (1, 255) if x["nz"] else None
+            return (0, 255) if x["ident"] else None  # U4: a byte before the last one is arbitrary
+        if isinstance(e, ast.Call) and isinstance(e.func, ast.Attribute) and e.func.attr in ("find", "count") and len(e.args) == 1 and not e.keywords:
+            x, c = self.bytes_(e.func.value, depth + 1), _c(e.args[0])
+            if x is not None and x["ident"] and (c == b"\x00" or (c == 0 and not isinstance(c, bool))):
+                # U4: the first NUL of V lies at any offset 0 .. N-2 or nowhere; V holds 0 .. N-1 NULs
+                return (-1, self.N - 2) if e.func.attr == "find" else (0, self.N - 1)
+        return None
+
+    @staticmethod
+    def _rel(a, op, b):
+        """a op b for two intervals whose values all occur (at least one of them a single constant)."""
+        if a[0] != a[1] and b[0] != b[1]:
+            return None
+        if a[0] == a[1] and b[0] != b[1]:
+            flip = {ast.Lt: ast.Gt, ast.Gt: ast.Lt, ast.LtE: ast.GtE, ast.GtE: ast.LtE}
+            return _FilledField._rel(b, flip.get(type(op), type(op))(), a)
+        c = b[0]
+        res = _ival_cmp(a[0], a[1], op, c)
+        return _BOTH if res is None else res
+
+    def truth(self, e, depth=0):
+        if depth > 8:
+            return None
+        rec = lambda x: self.truth(x, depth + 1)  # noqa: E731
+        if isinstance(e, ast.UnaryOp) and isinstance(e.op, ast.Not):
+            v = rec(e.operand)
+            return (not v) if isinstance(v, bool) else v
+        if isinstance(e, ast.BoolOp):
+            vals = [rec(v) for v in e.values]
+            absorbing = not isinstance(e.op, ast.And)
+            if any(v is absorbing for v in vals):
+                return absorbing
+            if any(v is None for v in vals):
+                return None
+            both = [v for v in vals if v == _BOTH]
+            return (not absorbing) if not both else _BOTH if len(both) == 1 else None
+        if isinstance(e, ast.Constant):
+            return bool(e.value)
+        if isinstance(e, ast.Compare) and len(e.ops) == 1:
+            l, op, r = e.left, e.ops[0], e.comparators[0]
+            if isinstance(op, (ast.In, ast.NotIn)):
+                x, c = self.bytes_(r), _c(l)
+                if x is not None and x["ident"] and ((_all_nul(c) and len(c) <= self.N - 1) or (c == 0 and isinstance(c, int) and not isinstance(c, bool))):
+                    return _BOTH  # U4: V may or may not hold a NUL before its last byte
+                return None
+            if not isinstance(op, (ast.Eq, ast.NotEq, ast.Lt, ast.LtE, ast.Gt, ast.GtE)):
+                return None
+            a, b = self.int_(l), self.int_(r)
+            if a is not None and b is not None:
+                return self._rel(a, op, b)
+            if isinstance(op, (ast.Eq, ast.NotEq)):
+                x, y = self.bytes_(l), self.bytes_(r)
+                if x is None or y is None:
+                    return None
+                eq = None
+                if x["ident"] and y["ident"]:
+                    eq = True
+                elif ("const" in x) != ("const" in y):
+                    k, v = (x, y) if "const" in x else (y, x)
+                    cb = k["const"]
+                    if not v["lo"] <= len(cb) <= v["hi"] or (v["nz"] and v["lo"] >= 1 and not k["nz"]):
+                        eq = False  # another length, or a NUL where V has none
+                if eq is None:
+                    return None
+                return eq == isinstance(op, ast.Eq)
+            return None
+        if isinstance(e, ast.Call) and isinstance(e.func, ast.Attribute) and e.func.attr == "endswith" and len(e.args) == 1 and not e.keywords:
+            x, c = self.bytes_(e.func.value), _c(e.args[0])
+            if x is not None and "const" not in x and x["nz"] and x["lo"] >= 1 and isinstance(c, bytes) and c and c[-1] == 0:
+                return False
+            return None
+        x = self.bytes_(e)
+        if x is not None:
+            return True if x["lo"] >= 1 else False if x["hi"] == 0 else None
+        a = self.int_(e)
+        if a is not None:
+            return False if a == (0, 0) else True if (a[0] > 0 or a[1] < 0) else _BOTH
+        return None
+
+
+def _entry_guards(ctx, f, cfg, fv, target, after):
+    """[(test, outcome)] of the branch edges that dominate statement `target` and whose test is evaluated after statement
+    node `after` (the struct parse) in the same iteration; and/or/not decomposed as far as the edge determines them."""
+    out = []
+
+    def emit(e, pol):
+        while isinstance(e, ast.UnaryOp) and isinstance(e.op, ast.Not):
+            e, pol = e.operand, not pol
+        if isinstance(e, ast.BoolOp) and isinstance(e.op, ast.And) == pol:
+            for v in e.values:
+                emit(v, pol)
+            return
+        out.append((e, pol))
+
+    tn = cfg.node(target)
+    for n, s in cfg.stmt.items():
+        if not isinstance(s, (ast.If, ast.While)) or s is target or not cfg.dominates(after, n):
+            continue
+        if cfg.dominates(cfg.edge_node(s, "true"), tn):
+            emit(s.test, True)
+        elif cfg.dominates(cfg.edge_node(s, "false"), tn):
+            emit(s.test, False)
+    return out
 
 
 def _len_of_peek(f, fv, e, stream, peek_st):
